@@ -111,12 +111,75 @@ func c18Widen(r *Rng, q c18PRule) c18PRule {
 	return a
 }
 
+// c18GenColliding draws a request list holding two DIFFERENT granular rules whose tree paths
+// become the same string under a careless join of the path elements (separator "/", ".", ":",
+// ",", "|" or none at all): RBAC resources contain "/" (subresources), resource names and URLs are
+// arbitrary strings. The allow list covers one of the two (mostly the one requested first),
+// both, or neither: "every single requested rule is covered" must be judged rule by rule.
+//
+//	shift resource|name   {g, x, [y<sep>*], v}      vs  {g, x<sep>y, [] (= all names), v}
+//	shift group|resource  {a, b<sep>c, n, v}        vs  {a<sep>b, c, n, v}
+//	shift name|verb       {g, x, [n<sep>w], v}      vs  {g, x, [n], w<sep>v}
+//	shift url|verb        {url /a<sep>b, verb c}    vs  {url /a, verb b<sep>c}
+func c18GenColliding(r *Rng) (reqs, allow []c18PRule) {
+	sep := Pick(r, []string{"/", "/", "/", "/", ".", ":", ",", "|", ""})
+	g, x, y, v := Pick(r, []string{"", "a", "apps"}), Pick(r, []string{"pods", "a", "b"}), Pick(r, []string{"exec", "status", "b", "c"}), Pick(r, []string{"create", "get", "a", "*"})
+	var a, b c18PRule
+	e := []string{}
+	switch r.Intn(5) {
+	case 0, 1:
+		a = c18PRule{V: []string{v}, G: []string{g}, R: []string{x}, N: []string{y + sep + "*"}, U: e}
+		b = c18PRule{V: []string{v}, G: []string{g}, R: []string{x + sep + y}, N: e, U: e}
+	case 2:
+		n := c18PickList(r, []string{"n", "*"}, 1)
+		a = c18PRule{V: []string{v}, G: []string{"a"}, R: []string{x + sep + y}, N: n, U: e}
+		b = c18PRule{V: []string{v}, G: []string{"a" + sep + x}, R: []string{y}, N: n, U: e}
+	case 3:
+		a = c18PRule{V: []string{v}, G: []string{g}, R: []string{x}, N: []string{"n" + sep + y}, U: e}
+		b = c18PRule{V: []string{y + sep + v}, G: []string{g}, R: []string{x}, N: []string{"n"}, U: e}
+	default:
+		a = c18PRule{V: []string{v}, G: e, R: e, N: e, U: []string{"/" + x + sep + y}}
+		b = c18PRule{V: []string{y + sep + v}, G: e, R: e, N: e, U: []string{"/" + x}}
+	}
+	if r.Bool() {
+		a, b = b, a
+	}
+	reqs = []c18PRule{a}
+	if r.Chance(1, 3) {
+		reqs = append(reqs, c18GenRule(r, false))
+	}
+	reqs = append(reqs, b)
+	switch x := r.Intn(8); {
+	case x < 4: // the first one only
+		allow = []c18PRule{a}
+	case x < 5:
+		allow = []c18PRule{b}
+	case x < 6:
+		allow = []c18PRule{a, b}
+	case x < 7:
+		allow = []c18PRule{c18Widen(r, a)}
+	default:
+		allow = []c18PRule{}
+	}
+	if len(reqs) == 3 && r.Chance(2, 3) {
+		allow = append(allow, c18Widen(r, reqs[1]))
+	}
+	return reqs, allow
+}
+
 func c18GenValidate(r *Rng) c18Scn {
 	exotic := r.Chance(1, 4)
 	s := c18Scn{Kind: "validate", Validator: "role"}
 	s.Requests = c18GenRules(r, 3, exotic)
 	if len(s.Requests) == 0 && r.Chance(9, 10) {
 		s.Requests = []c18PRule{c18GenRule(r, exotic)}
+	}
+	if r.Chance(1, 10) {
+		s.Requests, s.Allow = c18GenColliding(r)
+		if r.Chance(1, 4) {
+			s.Pre = c18GenPre(r, s.Allow, s.Requests, exotic)
+		}
+		return s
 	}
 	switch r.Intn(4) {
 	case 0: // unrelated allow list
@@ -584,6 +647,10 @@ func c18GenReconcile(r *Rng) c18Scn {
 			reqs = append(append([]c18PRule{}, reqs...), s.PRs[1].Requests...)
 		}
 		s.Allow = c18GenAllowFor(r, reqs)
+		if r.Chance(1, 10) { // two requests whose paths collide under a careless join; mostly one of them covered
+			s.PRs[0].Requests, s.Allow = c18GenColliding(r)
+			t = s.PRs[0]
+		}
 	}
 	for _, n := range append([]string{t.Name}, others...) {
 		for _, rn := range c18RoleNames(n) {
